@@ -10,6 +10,7 @@
 (*   origin  array | arrayk | file1 | file2       (k column: arrayk/file2) *)
 (*   lenRel  equal | shorter | longer | one       (number of points)       *)
 (*   kRel    none | exact | within | beyond | onepoint | rescaled | shifted*)
+(*           | nan (one entry of the k column is NaN: it matches nothing)   *)
 (*           ("within"/"beyond": both sides of numpy.allclose's boundary)  *)
 (* and lives through the stages of real use: constructed -> calculate(k)   *)
 (* -> createPRISM (Build) -> first cost evaluation (Evaluate).             *)
@@ -18,7 +19,7 @@ EXTENDS Naturals, TLC
 
 Origins == {"array", "arrayk", "file1", "file2"}
 LenRels == {"equal", "shorter", "longer", "one"}
-KRels   == {"none", "exact", "within", "beyond", "onepoint", "rescaled", "shifted"}
+KRels   == {"none", "exact", "within", "beyond", "onepoint", "rescaled", "shifted", "nan"}     \* nan: one k entry is not a number
 HasK(o) == o \in {"arrayk", "file2"}
 Sources == {s \in [origin : Origins, lenRel : LenRels, kRel : KRels] :
               /\ (HasK(s.origin) <=> s.kRel # "none")
